@@ -96,19 +96,20 @@ Example C11_former_witness_negative_rejected :
 Proof. repeat split; vm_compute; reflexivity. Qed.
 
 (* ---- the validator's recorded stake (v_) equals the validator total (st__t_) ----
-   Since fixes e681066 (record deleted only when the CURRENT record is powerless; HandleUnstake
-   refuses a negative stake) and cb71748 (record update postponed only when the penalty was applied):
-   for every history the record's stake equals the total plus the penalty decided in the last
-   end-block and still to be applied by the next BeginBlock (pend = [] after every BeginBlock), the
-   power equals the stake, and a validator without a record has no locked stake.
-   What remains assumed (record_trig = false at every step):
-     - genesis amounts are non-negative                                   (gen_nonneg)
-     - no validator record reaches 2^63 whole OLT (calculatePower narrows) (stake_overflow)
-     - PenaltyBasePercentage >= 0 and PenaltyBaseDecimals > 0              (verdict_params_ok)
-     - no postponed penalty is refused by the purge-height rule in BeginBlock
-       (trig_postponed_blocked — this one is a FINDING, refuted below and reproduced on the real code) *)
-Theorem C11_validator_record_partial : forall os,
-  guarded record_trig empty_state os = true ->
+   FULL since fixes e681066 (record deleted only when the CURRENT record is powerless; a negative
+   record stake is refused), cb71748 (record update postponed only when the penalty was applied)
+   and 0ce270f (the postponed update is not subject to the purge-height rule): for every history,
+   every environment input and every verdict, the record's stake equals the total plus the penalty
+   decided in the last end-block and still to be applied by the next BeginBlock (pend = [] after
+   every BeginBlock), the power equals the stake, and a validator without a record has no locked
+   stake.  Environment assumptions (record_env_violated = false at every step; none of them is a
+   trigger of a defect):
+     - genesis amounts are non-negative                                    (gen_nonneg)
+     - no validator record reaches 2^63 whole OLT (calculatePower narrows;
+       more than the total supply by nine orders of magnitude)             (stake_overflow)
+     - PenaltyBasePercentage >= 0 and PenaltyBaseDecimals > 0               (verdict_params_ok) *)
+Theorem C11_validator_record : forall os,
+  guarded record_env_violated empty_state os = true ->
   let s := run empty_state os in
   forall v,
     match vrecs s !! v with
@@ -116,27 +117,27 @@ Theorem C11_validator_record_partial : forall os,
     | None => zget (vtot s) v = 0
     end.
 Proof. exact validator_record. Qed.
-Print Assumptions C11_validator_record_partial.
+Print Assumptions C11_validator_record.
 
 (* non-vacuity: a history with stake, unstake, a verdict with penalty and the postponed update *)
 Example C11_validator_record_nonvacuous :
-  guarded record_trig empty_state
+  guarded record_env_violated empty_state
     [OGenStake 1 2 3000; OBegin []; OStake 1 2 500 false (10000 * base) 2 3 false false;
      OUnstake 1 2 700 false false 2 3 false false; OEnd 2 [(1%positive, 30, 100)]; OBegin []; OEnd 3 []] = true.
 Proof. vm_compute. reflexivity. Qed.
 
-(* refuted without the last assumption (trigger C11.postponed_penalty_blocked): the verdict of block 3
-   reduces st__t_ from 500 to 350; BeginBlock 4 refuses the record update (validator purged in block 3) *)
+(* the former witness of C11_validator_record_refuted_1 (finding C11.postponed_penalty_blocked, fixed
+   by 0ce270f; replayed on the real application on every run): the verdict of block 3 reduces st__t_
+   from 500 to 350; BeginBlock 4 — right after the purge of block 3 — now applies it to the record *)
 Definition w_blocked : list op :=
   [OGenStake 5 6 2998000; OBegin []; OEnd 1 []; OBegin []; OUnstake 5 6 2997500 false false 2 2 false false; OEnd 2 [];
    OBegin []; OEnd 3 [(5%positive, 30, 100)]; OBegin [5%positive]; OEnd 4 []].
-Theorem C11_validator_record_refuted_1 : exists os,
-  guarded record_trig empty_state os = false /\
-  guarded (fun s o => negb (gen_nonneg o) || stake_overflow s o || negb (verdict_params_ok o)) empty_state os = true /\
-  let s := run empty_state os in
-  exists r, vrecs s !! 5%positive = Some r /\ vr_staking r = 500 /\ zget (vtot s) 5%positive = 350 /\ pend s = [].
-Proof. exists w_blocked. split; [|split]; vm_compute; [reflexivity|reflexivity|]. exists (VRec 6%positive 500 500). repeat split. Qed.
-Print Assumptions C11_validator_record_refuted_1.
+Example C11_former_witness_blocked_holds :
+  trig_postponed_blocked (run empty_state (firstn 8 w_blocked)) (OBegin [5%positive]) = true /\
+  guarded record_env_violated empty_state w_blocked = true /\
+  vrecs (run empty_state w_blocked) !! 5%positive = Some (VRec 6%positive 350 350) /\
+  zget (vtot (run empty_state w_blocked)) 5%positive = 350.
+Proof. vm_compute. repeat split. Qed.
 
 (* the former witness (finding C11.validator_record_deleted_with_stake, fixed by e681066): the record
    now survives the end-block and stays equal to the total *)
@@ -146,7 +147,7 @@ Definition w_deleted : list op :=
    OBegin []; OStake 5 6 5000 false (1000000 * base) 3 2 false false; OEnd 3 [];
    OBegin []; OEnd 4 []; OBegin []; OStake 5 6 10 false (1000000 * base) 5 2 false false; OEnd 5 []].
 Example C11_former_witness_deleted_holds :
-  guarded record_trig empty_state w_deleted = true /\
+  guarded record_env_violated empty_state w_deleted = true /\
   vrecs (run empty_state w_deleted) !! 5%positive = Some (VRec 6%positive 5010 5010) /\
   zget (vtot (run empty_state w_deleted)) 5%positive = 5010.
 Proof. vm_compute. repeat split. Qed.
